@@ -504,6 +504,7 @@ class CircuitSimulator:
         if operation.name == "GLOBALPHASE":
             # This is just a complex number.
             U = np.exp(1.0j * operation.arg_value)
+            U_dag = np.conj(U)
         else:
             # We need to use the circuit because the custom gates
             # are still saved in circuit instance.
@@ -514,10 +515,11 @@ class CircuitSimulator:
                 dims=self.dims,
                 targets=operation.get_all_qubits(),
             )
+            U_dag = U.dag()
         if self.mode == "state_vector_simulator":
             state = U * state
         elif self.mode == "density_matrix_simulator":
-            state = U * state * U.dag()
+            state = U * state * U_dag
         else:
             raise NotImplementedError(
                 "mode {} is not available.".format(self.mode)
